@@ -59,6 +59,14 @@ impl Driver
 
 	pub fn phase_profile(&mut self, name: &str, jobs: Vec<Value>, release: bool) -> JobResult
 	{
+		if let Ok(only) = std::env::var("VERIF_ONLY")
+		{
+			if !name.contains(&only)
+			{
+				self.cap_hit("VERIF_ONLY development filter active");
+				return JobResult::default();
+			}
+		}
 		let t0 = std::time::Instant::now();
 		let njobs = jobs.len();
 		let r = self.pool.run_profile(jobs, release);
